@@ -39,6 +39,14 @@ func c07Components() []compDef {
 		{name: "c2", args: nil, slots: []string{""}, stmts: []*tw.Stmt{tw.Text("<c2 "), tw.Print(tw.Var("s1")), tw.Text(">"), slot(""), tw.Text("</c2>")}},
 		// two placeholders whose names differ in letter case only: each shows the body passed under exactly its name
 		{name: "c5", slots: []string{"title", "Title"}, stmts: []*tw.Stmt{tw.Text("<c5>"), slot("title"), tw.Text("|"), slot("Title"), tw.Text("</c5>")}},
+		// a dozen placeholders
+		{name: "c6", slots: []string{"s01", "s02", "s03", "s04", "s05", "s06", "s07", "s08", "s09", "s10", "s11", "s12"}, stmts: func() []*tw.Stmt {
+			out := []*tw.Stmt{tw.Text("<c6>")}
+			for i := 1; i <= 12; i++ {
+				out = append(out, slot(fmt.Sprintf("s%02d", i)), tw.Text(fmt.Sprintf("/%d", i)))
+			}
+			return append(out, tw.Text("</c6>"))
+		}()},
 		// nothing is passed to these two: all they show comes from the surrounding loop
 		{name: "c3", needs: "lv", stmts: []*tw.Stmt{tw.Text("<c3 "), tw.Print(tw.Var("lv")), tw.Text(" "), tw.Print(tw.Bin("+", tw.Var("i1"), intLit(1))), tw.Text(">")}},
 		{name: "c4", needs: "fv", stmts: []*tw.Stmt{tw.Text("<c4 "), tw.Print(tw.Bin("*", tw.Var("fv"), intLit(10))), tw.Text(">")}},
@@ -197,7 +205,7 @@ func (u *useGen) page(depth int) []*tw.Stmt {
 
 func TestC07_Components(t *testing.T) {
 	c := harness.New(t, "C07", "components",
-		"pages with 1..4 uses of seven component files (two placeholders whose names differ in letter case only; arguments used in text, expressions and conditions; a page variable that is not passed; two files that take nothing and show the variable of the loop around the use; default and named top-level slots; one under components/ addressed by '~name'): the same component several times with different arguments and different / missing slot bodies, uses inside @each and @for (arguments and slot bodies from the loop variable, >= 2 passes), inside @if/@elseif/@else, inside the @else of @each and @for, inside @insert blocks of a layout, and inside the slot body passed to another use; slot bodies with text and {{ }} over page variables; blanks, line ends and comments before the first slot, between slots and before the closing @end. Expected: reference instantiation (arguments evaluated at the place of use, surrounding scope visible, each placeholder replaced by the body passed by that use or nothing). Non-trivial: one component used >= 2 times or a use evaluated in a loop. Distinct by hash of files + data.")
+		"pages with 1..4 uses of eight component files (one with twelve placeholders; two placeholders whose names differ in letter case only; arguments used in text, expressions and conditions; a page variable that is not passed; two files that take nothing and show the variable of the loop around the use; default and named top-level slots; one under components/ addressed by '~name'): the same component several times with different arguments and different / missing slot bodies, uses inside @each and @for (arguments and slot bodies from the loop variable, >= 2 passes), inside @if/@elseif/@else, inside the @else of @each and @for, inside @insert blocks of a layout, and inside the slot body passed to another use; slot bodies with text and {{ }} over page variables; blanks, line ends and comments before the first slot, between slots and before the closing @end. Expected: reference instantiation (arguments evaluated at the place of use, surrounding scope visible, each placeholder replaced by the body passed by that use or nothing). Non-trivial: one component used >= 2 times or a use evaluated in a loop. Distinct by hash of files + data.")
 	defer c.Finish()
 	in := interp()
 	runRapid(t, c, 4000, 45000, func(rt *rapid.T) {
@@ -307,7 +315,7 @@ func TestC07_TwoUsesEnum(t *testing.T) {
 
 func TestC07_Errors(t *testing.T) {
 	c := harness.New(t, "C07", "errors",
-		"load-time error classes, each inside an otherwise valid generated page: a slot the component does not declare (named - an unrelated name, a declared name in another letter case, with a trailing blank, shortened or lengthened - and default), a slot passed twice (named and default) - the offending body being text, a blank, a comment, an empty print or nothing at all -, a missing component file (plain and '~' name); NewTemplate must fail and the message must name the component. Non-trivial: all. Distinct by hash.")
+		"load-time error classes, each inside an otherwise valid generated page: a slot the component does not declare (named - an unrelated name, a declared name in another letter case, with a trailing blank, shortened or lengthened - and default), a slot passed twice (named and default; any one of the twelve slots of a use that passes them all) - the offending body being text, a blank, a comment, an empty print or nothing at all -, a missing component file (plain and '~' name); NewTemplate must fail and the message must name the component. Non-trivial: all. Distinct by hash.")
 	defer c.Finish()
 	runRapid(t, c, 600, 7500, func(rt *rapid.T) {
 		env := genDataEnv().Draw(rt, "data")
@@ -316,7 +324,7 @@ func TestC07_Errors(t *testing.T) {
 		files := compFiles()
 		// (the body passed under the bad name may be text, a blank, a comment or nothing at all)
 		body := rapid.SampledFrom([][]*tw.Stmt{{tw.Text("x")}, {tw.Text("x")}, nil, {tw.Text("{{-- nothing --}}")}, {tw.Text(" ")}, {tw.Print(tw.Str(""))}}).Draw(rt, "badBody")
-		kind := rapid.SampledFrom([]string{"undeclared-named-slot", "undeclared-default-slot", "duplicate-named-slot", "duplicate-default-slot", "missing-component", "missing-alias-component"}).Draw(rt, "errorKind")
+		kind := rapid.SampledFrom([]string{"undeclared-named-slot", "undeclared-default-slot", "duplicate-named-slot", "duplicate-default-slot", "missing-component", "missing-alias-component", "duplicate-among-many-slots"}).Draw(rt, "errorKind")
 		var bad *tw.Stmt
 		mention := ""
 		switch kind {
@@ -330,6 +338,18 @@ func TestC07_Errors(t *testing.T) {
 		case "duplicate-named-slot":
 			bad = &tw.Stmt{Kind: tw.SComponent, Name: "c1", Arg: tw.Obj([]string{"flag", "s"}, []*tw.Expr{tw.Bool(true), tw.Str("s")}), Slots: []*tw.Stmt{{Kind: tw.SSlot, Name: "head", Body: body, Text: "\n"}, {Kind: tw.SSlot, Name: "head", Body: body, Text: "\n"}}, Text: "\n"}
 			mention = "c1"
+		case "duplicate-among-many-slots":
+			// all twelve slots of c6 passed, one of them (the k-th written) a second time
+			k := rapid.IntRange(0, 11).Draw(rt, "dupAt")
+			var slots []*tw.Stmt
+			for i := 1; i <= 12; i++ {
+				slots = append(slots, &tw.Stmt{Kind: tw.SSlot, Name: fmt.Sprintf("s%02d", i), Body: []*tw.Stmt{tw.Text(fmt.Sprintf("b%d", i))}, Text: "\n"})
+			}
+			at := rapid.IntRange(k+1, 12).Draw(rt, "dupWrittenAt")
+			dup := &tw.Stmt{Kind: tw.SSlot, Name: fmt.Sprintf("s%02d", k+1), Body: []*tw.Stmt{tw.Text("again")}, Text: "\n"}
+			slots = append(slots[:at], append([]*tw.Stmt{dup}, slots[at:]...)...)
+			bad = &tw.Stmt{Kind: tw.SComponent, Name: "c6", Slots: slots, Text: "\n"}
+			mention = "c6"
 		case "duplicate-default-slot":
 			bad = &tw.Stmt{Kind: tw.SComponent, Name: "c2", Slots: []*tw.Stmt{{Kind: tw.SSlot, Name: "", Body: body, Text: "\n"}, {Kind: tw.SSlot, Name: "", Body: body, Text: " "}}, Text: "\n"}
 			mention = "c2"
